@@ -90,7 +90,10 @@ func (t *treePipeline) outputProgrammably(w io.Writer, root *Node, cfg *config) 
 	rootStream := make(chan *Node)
 	go func() {
 		defer close(rootStream)
-		rootStream <- root
+		select {
+		case rootStream <- root:
+		case <-ctx.Done():
+		}
 	}()
 	growStream, errcg := t.grower.grow(ctx, rootStream)
 	errcs := t.spreader.spread(ctx, w, growStream)
@@ -122,7 +125,10 @@ func (t *treePipeline) mkdirProgrammably(root *Node, cfg *config) error {
 	rootStream := make(chan *Node)
 	go func() {
 		defer close(rootStream)
-		rootStream <- root
+		select {
+		case rootStream <- root:
+		case <-ctx.Done():
+		}
 	}()
 	t.grower.enableValidation()
 	// when detect invalid node name, return error. process end.
@@ -156,7 +162,10 @@ func (t *treePipeline) verifyProgrammably(root *Node, cfg *config) error {
 	rootStream := make(chan *Node)
 	go func() {
 		defer close(rootStream)
-		rootStream <- root
+		select {
+		case rootStream <- root:
+		case <-ctx.Done():
+		}
 	}()
 	t.grower.enableValidation()
 	// when detect invalid node name, return error. process end.
@@ -184,7 +193,10 @@ func (t *treePipeline) walkProgrammably(root *Node, callback func(*WalkerNode) e
 	rootStream := make(chan *Node)
 	go func() {
 		defer close(rootStream)
-		rootStream <- root
+		select {
+		case rootStream <- root:
+		case <-ctx.Done():
+		}
 	}()
 	growStream, errcg := t.grower.grow(ctx, rootStream)
 	errcw := t.walker.walk(ctx, growStream, callback)
